@@ -158,7 +158,7 @@ package database
 // C02: the forwarder of a batch puts every record the storage accepted into the interface's read
 // cache (or removes it, when deleted) with the record's own remaining lifetime, as Put does, and
 // never as a delayed write
-//@ func (*Interface).PutMany$4
+//@ func (*Interface).putMany$4
 //@   nopanic off
 //@   modifies *
 //@   ghost var relSet bool = false
@@ -411,7 +411,22 @@ package database
 // ---- C03: batch writes bypass the per-record checks, so a batch is only opened for an interface
 // that has all permissions (local and internal); every other interface gets a put function that
 // refuses
+// C02: the flush of the delayed write cache holds the write cache lock; it stores its records with
+// a batch put that leaves the read cache alone (an eviction would wait for that lock)
+//@ func (*Interface).flushWriteCache
+//@   requires i != nil && i.options != nil
+//@   nopanic off
+//@   modifies *
+//@   at call (*Interface).putMany assert !arg2
+
+// C02: the public batch put asks the forwarder to keep the read cache in line
 //@ func (*Interface).PutMany
+//@   requires i != nil && i.options != nil
+//@   nopanic off
+//@   modifies *
+//@   at call (*Interface).putMany assert arg2
+
+//@ func (*Interface).putMany
 //@   requires i != nil && i.options != nil
 //@   nopanic off
 //@   modifies *
